@@ -29,12 +29,20 @@ class Obligation:
         self.evaluations = 0
         self.inspected = []       # constructs (file:line) actually looked at
         self.notes = []
+        self.imprecise = False    # some value this obligation looked at could not be computed by the evaluator
 
     # -- context manager: exceptions become UNDECIDED ---------------------------------------
     def __enter__(self):
         return self
 
     def __exit__(self, et, ev, tb):
+        if self.verdict == VIOLATED and self.imprecise:
+            # a difference found next to values the evaluator could not compute (an unmodelled construct on the way) is not a
+            # reliable difference: what follows an unknown value is unknown
+            self.verdict = UNDECIDED
+            self.details.append('part of what this obligation evaluates could not be computed by the evaluator (see the "not '
+                                'computable" / Opaque entries above): the differences listed with it are consequences of that and '
+                                'are not reported as violations')
         if et is None:
             if self.verdict is None:
                 if self.evaluations == 0:
@@ -76,6 +84,8 @@ class Obligation:
         self.saw(where or self.where)
         if not cond:
             self.verdict = VIOLATED
+            if found is not None and 'Opaque(' in str(found):
+                self.imprecise = True
             d = msg
             if expected is not None or found is not None:
                 d += ' | expected: %s | found: %s' % (expected, found)
@@ -86,6 +96,8 @@ class Obligation:
 
     def undecided(self, msg, where=None):
         self.evaluations += 1
+        if 'not computable by the evaluator' in msg or 'which the summary table does not model' in msg:
+            self.imprecise = True
         if self.verdict != VIOLATED:
             self.verdict = UNDECIDED
         self.details.append(('%s: ' % where if where else '') + msg)
